@@ -167,7 +167,7 @@ def _release(o):
 OUTCOME_MIX = dict(C=0.55, NAN=0.10, I=0.15, F=0.15, INF=0.05)
 
 
-def run_history(cfg, outcome_mix=None, reload_p=0.04, reask_p=0.08, until_stopped=False, step_cap=None, spaces=None):
+def run_history(cfg, outcome_mix=None, reload_p=0.04, reask_p=0.08, until_stopped=False, step_cap=None, spaces=None, negate=False):
     """Drive a real oracle; returns dict(cfg, ops, obs, table). Every random choice derives from cfg['hseed']."""
     warnings.filterwarnings("ignore")
     mix = outcome_mix or OUTCOME_MIX
@@ -205,6 +205,8 @@ def run_history(cfg, outcome_mix=None, reload_p=0.04, reask_p=0.08, until_stoppe
                     r = rng.random()
                     v = float("nan") if r < mix["NAN"] else (rng.choice([math.inf, -math.inf]) if r < mix["NAN"] + mix["INF"] else float(60 * rng.randint(-5, 5)))
                     st = rng.choice([0, 0, 0, 1, 2])
+                    if negate:
+                        v = -v
                     o.update_trial(t.trial_id, {"score": v}, step=st)
                     reported[tn] = True
                     ops.append(("update", int(t.trial_id), v, st)); obs.append((("none",), snapshot(o, d))); continue
@@ -247,7 +249,8 @@ def run_history(cfg, outcome_mix=None, reload_p=0.04, reask_p=0.08, until_stoppe
                 elif t.status == "STOPPED":
                     stopped.add(w)
                 ops.append(("create", w)); obs.append((("trial", int(t.trial_id), t.status, tk), snapshot(o, d)))
-        return dict(cfg=cfg, ops=ops, obs=obs, table=[tuple(x) for x in table], pop_exc=pop_exc)
+        final_best = [int(t.trial_id) for t in o.get_best_trials(len(o.trials) + 1)]
+        return dict(cfg=cfg, ops=ops, obs=obs, table=[tuple(x) for x in table], pop_exc=pop_exc, final_best=final_best)
     finally:
         shutil.rmtree(d, ignore_errors=True)
 
